@@ -89,6 +89,23 @@ def runSem (j : Json) : Json :=
       let seed := (jnatD j "seed" 1).toUInt64
       let count := jnatD j "count" 20
       let ticks := jnatD j "ticks" (2 * bp.ents.size + 8)
+      let stateful : Bool := decide (core.mems.size > 0)
+      let unsupported := bp.ents.toList.filterMap (fun e => match e.kind with | .unsupported w => some s!"{e.number}:{w}" | _ => none)
+      -- placed entities: the k-th `place` of the Core program is the k-th IRPlaceEntity
+      let placed := ((jgetD j "placed").getArr?.toOption.getD #[]).toList.map (fun x => x.getStr?.toOption.getD "")
+      let entIdx (k : Nat) : Option Nat := (placed[k]?).bind (idxOfId ids)
+      let enableObs : List Observation := (List.range core.ents.size).flatMap (fun k =>
+        match entIdx k, core.ents[k]? with
+        | some i, some e => e.writes.filterMap (fun w =>
+            if w.prop == "enable" then some { name := s!"entity{k}.enable", idx := i, atAnchor := false, sig := none, node := 0, enable := some w.value }
+            else none)
+        | _, _ => [])
+      let srcBindings : List SourceBinding := (List.range core.ents.size).filterMap (fun k =>
+        if core.nodes.any (fun nd => match nd with | .entOut e => e == k | _ => false) then
+          (entIdx k).map (fun i => { ent := k, idx := i })
+        else none)
+      let obs := obs ++ enableObs
+      let (done, ms) := if stateful then (0, []) else searchStateless core c.circ inputs obs ren seed count ticks 3 srcBindings
       -- wiring check against the planned edges
       let pairIdx (p : Json) : Option (Nat × Nat) :=
         match p.getArr?.toOption with
@@ -106,20 +123,48 @@ def runSem (j : Json) : Json :=
         (edges.filterMap (fun (s, t) => if t == i then some s else none)) ++
         (explicit.filterMap (fun (a, b) => if b == i then some a else if a == i then some b else none)))
       let anchors := (List.range ids.size).filter (fun i => (ids.getD i "").endsWith "_output_anchor")
-      let wr := wireCheck bp c.circ intended explicit anchors
+      -- per entity: the producers planned for its wildcard operand (bundle sources)
+      let wild : List (Nat × List Nat) := match (jgetD j "wild_sources") with
+        | .obj kvs => kvs.toList.filterMap (fun (k, v) =>
+            match idxOfId ids k with
+            | some i => some (i, (v.getArr?.toOption.getD #[]).toList.filterMap (fun x => (x.getStr?.toOption).bind (idxOfId ids)))
+            | none => none)
+        | _ => []
+      let wr := wireCheck bp c.circ intended explicit anchors (srcBindings.map (·.idx)) wild
       let idOf (i : Nat) : Json := Json.str (ids.getD i s!"#{i}")
       let wireJson := Json.mkObj [
+        ("pollution", Json.arr (wr.pollution.map (fun (a, c, p) => Json.mkObj [("sink", idOf a), ("colour", c), ("producer", idOf p)])).toArray),
+        ("unselected", Json.arr (wr.unselected.map (fun (a, p) => Json.arr #[idOf p, idOf a])).toArray),
         ("intrusions", Json.arr (wr.intrusions.map (fun x => Json.mkObj [("sink", idOf x.sink), ("colour", x.colour), ("producer", idOf x.producer), ("sig", x.sig)])).toArray),
         ("missing", Json.arr (wr.missing.map (fun (a, b) => Json.arr #[idOf a, idOf b])).toArray),
         ("unjustified", Json.arr (wr.unjustified.map (fun (a, b) => Json.arr #[idOf (a / 4), toJson (a % 4 + 1), idOf (b / 4), toJson (b % 4 + 1)])).toArray)]
-      let stateful : Bool := decide (core.mems.size > 0)
-      let unsupported := bp.ents.toList.filterMap (fun e => match e.kind with | .unsupported w => some s!"{e.number}:{w}" | _ => none)
-      let (done, ms) := if stateful then (0, []) else searchStateless core c.circ inputs obs ren seed count ticks 3
+      -- stateful programs
+      let alwaysCells := (List.range core.mems.size).filter (fun m =>
+        match core.mems[m]? with
+        | some cell => cell.writes.any (fun w => match w with | .always _ => true | _ => false)
+        | none => false)
+      let hold := jnatD j "hold" (2 * bp.ents.size + 10)
+      let steps := jnatD j "steps" 12
+      let histJson : Json :=
+        if !stateful then Json.null
+        else if alwaysCells.isEmpty then
+          let (k, hm) := searchHistory core c.circ inputs obs ren seed steps hold
+          Json.mkObj [("steps", k), ("mismatches", Json.arr (hm.map HistMismatch.toJson).toArray)]
+        else
+          let readers := obs.filter (fun o => match (core.nodes[o.node]? : Option CNode) with
+            | some (CNode.memRead m _) => alwaysCells.contains m
+            | _ => false)
+          let results := readers.map (fun o =>
+            let cell := match (core.nodes[o.node]? : Option CNode) with | some (CNode.memRead m _) => m | _ => 0
+            let (l, trace) := iterateCheck core c.circ inputs cell o (inputs.map (·.lit)) (jnatD j "maxL" 12) (jnatD j "window" 40)
+            Json.mkObj [("name", o.name), ("cell", cell), ("latency", match l with | some v => toJson v | none => Json.null),
+              ("trace", Json.arr (trace.map (fun v => Json.num (JsonNumber.fromInt v))).toArray)])
+          Json.mkObj [("iterate", Json.arr results.toArray)]
       Json.mkObj [("id", id), ("elab", "ok"), ("stateful", Json.bool stateful),
         ("n_nodes", core.nodes.size), ("n_obs", obs.length), ("n_inputs", inputs.length),
         ("obs", Json.arr (obs.map (fun o => Json.str o.name)).toArray),
         ("unsupported", Json.arr (unsupported.map Json.str).toArray),
-        ("wire", wireJson), ("valuations", done), ("mismatches", Json.arr (ms.map Mismatch.toJson).toArray)]
+        ("wire", wireJson), ("history", histJson), ("valuations", done), ("mismatches", Json.arr (ms.map Mismatch.toJson).toArray)]
 
 def handle (line : String) : String :=
   match Json.parse line with
